@@ -22,6 +22,7 @@ func checkC04(p *Prog, r *Report) {
 	c04DayCounter(p, r)
 	c04StartOffset(p, r)
 	sentinelFallback(p, r, "C04.R8")
+	c04TodayIndex(p, r)
 }
 
 // ---------------------------------------------------------------- R1 weather errors propagate
@@ -1018,7 +1019,6 @@ func c04Carried(p *Prog, r *Report) {
 	}
 }
 
-
 // disjuncts flattens nested "or".
 func disjuncts(c *Cond) []*Cond {
 	if c.Kind == "or" {
@@ -1029,4 +1029,114 @@ func disjuncts(c *Cond) []*Cond {
 		return out
 	}
 	return []*Cond{c}
+}
+
+// ---------------------------------------------------------------- R9 today's record everywhere
+
+// c04TodayIndex: the per-year weather arrays are indexed by the 0-based day of
+// year; every read of them on the run path must use today's index (the
+// counter of R6), apart from the listed exceptions.
+var weatherIndexExceptions = map[string]string{
+	"hermes.Init|ITAG - 1":                   "start temperature of the soil profile: the record of the start day, before the day loop has set the counter",
+	"hermes.HermesSession.Run|TAG.Index + 1": "automatic irrigation looks at the rain forecast of the next two days",
+	"hermes.HermesSession.Run|TAG.Index + 2": "automatic irrigation looks at the rain forecast of the next two days",
+	"hermes.HermesSession.Run|TAG.Index - I": "automatic sowing: sliding mean temperature over the preceding days",
+	"hermes.HermesSession.Run|TAG.Index - 1": "automatic sowing: no heavy rain on the preceding day (guarded for the first day of the year)",
+	"hermes.Nitro|TAG.Index - 1":             "automatic fertilisation trigger: temperature sum of five days, rain of today and yesterday",
+	"hermes.Nitro|TAG.Index - 2":             "automatic fertilisation trigger: temperature sum of five days",
+	"hermes.Nitro|TAG.Index - 3":             "automatic fertilisation trigger: temperature sum of five days",
+	"hermes.Nitro|TAG.Index - 4":             "automatic fertilisation trigger: temperature sum of five days",
+	"hermes.Nitro|TAG.Index + 1":             "automatic fertilisation trigger: rain forecast of tomorrow",
+	"hermes.PhytoOut|TAG.Index - 1":          "automatic harvest trigger: rain sum of four days",
+	"hermes.PhytoOut|TAG.Index - 2":          "automatic harvest trigger: rain sum of four days",
+	"hermes.PhytoOut|TAG.Index - 3":          "automatic harvest trigger: rain sum of four days",
+}
+
+func c04TodayIndex(p *Prog, r *Report) {
+	r.Rule("C04.R9", "today's record everywhere: every read of a per-day weather array (the arrays LoadYear fills) in the hermes package uses the day counter of the day loop as index; the exceptions (start day in Init; forecast and look-back windows of the automatic sowing, harvest, fertilisation and irrigation triggers) are listed with a reason", 200)
+	ly := p.Funcs["hermes.LoadYear"]
+	if ly == nil {
+		r.Ob("LoadYear", "-", false, "hermes.LoadYear not found")
+		return
+	}
+	// the weather arrays: fields of GlobalVarsMain stored at [loop variable] in LoadYear
+	arrays := map[string]bool{}
+	linfo := ly.Pkg.TypesInfo
+	ast.Inspect(ly.Decl.Body, func(n ast.Node) bool {
+		as, ok := n.(*ast.AssignStmt)
+		if !ok {
+			return true
+		}
+		for _, l := range as.Lhs {
+			if ie, ok := l.(*ast.IndexExpr); ok {
+				if se, ok := ie.X.(*ast.SelectorExpr); ok {
+					if nm, _ := namedStruct(linfo.TypeOf(se.X)); nm == "GlobalVarsMain" {
+						if _, isId := ie.Index.(*ast.Ident); isId {
+							arrays[se.Sel.Name] = true
+						}
+					}
+				}
+			}
+		}
+		return true
+	})
+	if len(arrays) < 8 {
+		r.Ob("arrays", p.Pos(ly.Decl.Pos()), false, fmt.Sprintf("only %d per-day arrays recognised in LoadYear", len(arrays)))
+		return
+	}
+	skip := map[string]bool{"hermes.LoadYear": true}
+	n := 0
+	for _, key := range sortedFuncKeys(p) {
+		fi := p.Funcs[key]
+		if fi.Pkg != p.Hermes || skip[key] {
+			continue
+		}
+		info := fi.Pkg.TypesInfo
+		// left-hand sides are stores, not reads
+		lhs := map[ast.Expr]bool{}
+		ast.Inspect(fi.Decl.Body, func(nd ast.Node) bool {
+			if as, ok := nd.(*ast.AssignStmt); ok {
+				for _, l := range as.Lhs {
+					lhs[l] = true
+				}
+			}
+			return true
+		})
+		ast.Inspect(fi.Decl.Body, func(nd ast.Node) bool {
+			ie, ok := nd.(*ast.IndexExpr)
+			if !ok || lhs[ie] {
+				return true
+			}
+			se, ok := ie.X.(*ast.SelectorExpr)
+			if !ok || !arrays[se.Sel.Name] {
+				return true
+			}
+			if nm, _ := namedStruct(info.TypeOf(se.X)); nm != "GlobalVarsMain" {
+				return true
+			}
+			n++
+			// normalise the index: drop the receiver of GlobalVarsMain selections
+			idx := types.ExprString(ie.Index)
+			if recv := types.ExprString(se.X); recv != "" {
+				idx = strings.ReplaceAll(idx, recv+".", "")
+			}
+			idx = strings.ReplaceAll(idx, "+", " + ")
+			idx = strings.ReplaceAll(idx, "-", " - ")
+			idx = strings.Join(strings.Fields(idx), " ")
+			okI := idx == "TAG.Index"
+			why := "index is the day counter"
+			if !okI {
+				if reason, has := weatherIndexExceptions[key+"|"+idx]; has {
+					okI, why = true, "listed exception: "+reason
+				} else {
+					why = "read at index " + idx + ", which is neither today's day counter nor a listed exception: the model consumes another date's record"
+				}
+			}
+			r.Ob("read:"+shortKey(key)+":"+se.Sel.Name+"["+idx+"]", p.Pos(ie.Pos()), okI, why)
+			return true
+		})
+	}
+	if n == 0 {
+		r.Ob("reads", "-", false, "no read of a per-day weather array found")
+	}
 }
